@@ -33,7 +33,15 @@ RULE = (
     "only), the unregularized-diagonal setting divided by its square, sky level and garbage multiplied by it, 6 lists "
     "(regularized, partially unregularized, regularized function list) in both formalisms and fit modes, plus an 18x18 "
     "rectangular mapper (324 regularized parameters) at factors 1e-3, 1, 1e3; every evidence term must be finite and equal "
-    "to the formula; non-trivial = plain: the mask has masked pixels; inversion: the list has >= 2 objects or is partially unregularized"
+    "to the formula; dense regularization matrices (symmetric positive definite, NOT diagonally dominant) = kernel schemes "
+    "(GaussianKernel / ExponentialKernel with a scale length of 1, 2, 3, 5 mesh-pixel spacings) on every mapper kind, a "
+    "custom regularization object returning a dense SPD matrix of 4 constructions (Gram, rank-one + ridge, min(i,j), equi-"
+    "correlation) on mappers and function lists, alone, next to unregularized objects on either side (reduction of dense "
+    "blocks) and next to Constant / other dense blocks, each also with the same matrix supplied through "
+    "preloads.regularization_matrix (the objects then carry a Constant scheme), both formalisms and fit modes at one rotating "
+    "sky level: log_det_regularization_matrix_term, log_det_curvature_reg_matrix_term, regularization_term, log_evidence and "
+    "figure_of_merit must be finite and equal to the formula; "
+    "non-trivial = plain: the mask has masked pixels; inversion: the list has >= 2 objects or is partially unregularized"
 )
 ASSUMPTIONS = [
     "every statistic is a composition of element-wise operations and sums over pixels, so labelled menus with mixed "
@@ -65,6 +73,22 @@ ASSUMPTIONS = [
     "regularization with a coefficient scaled up by more than ~1e4 makes c^2 L + 1e-8 I numerically singular (the ridge "
     "vanishes below rounding) - such matrices have no defined log-determinant and are outside the enumeration; the "
     "positive-only solver and the second-fit histories are not repeated in other units",
+    "dense regularization matrices: H = the inversion's own regularization_matrix (the kernel schemes' matrix is certified by "
+    "C07; the custom object's and the preloaded matrix are the caller's); reference log-determinants as in the other-units "
+    "cases (sums of logs of the diagonal + slogdet of the symmetrically equilibrated matrix, condition-aware tolerance on the "
+    "equilibrated matrix, so a Constant block with its 1e-8 ridge next to a kernel block with entries of 1e7 costs nothing); "
+    "the kernel schemes return inv(covariance), which is symmetric only to rounding * cond(covariance): log det is then "
+    "defined only up to the choice of triangle (a Cholesky factor reads one, an LU both), so the tolerance adds the measured "
+    "spread of log det over {the matrix, its lower triangle mirrored, its upper triangle mirrored} (exactly zero for "
+    "symmetric matrices, < 1e-5 up to 3 spacings, up to 8e-3 for the Gaussian kernel 5 spacings wide on the 3x4 mesh); a "
+    "matrix whose log-determinant is thereby defined to worse than 1e-2 has no log-determinant to compare and is outside the "
+    "enumeration (only 2-pixel masks, whose overlaid rectangular mesh has nearly coincident rows); s^T H s is demanded to 16 "
+    "n eps |s|^T |H| |s| (entries of H reach 1e7 and cancel); the scale length is given in units of the mesh's lattice "
+    "constant = mean pairwise distance of the mesh-pixel centres / (0.52 sqrt n), which is the spacing of a square lattice; "
+    "the 4 custom constructions have cond < 1e5 and are exactly symmetric; a preloaded matrix is the one the schemes give for "
+    "the same objects (block diagonal, zero blocks for unregularized objects), as a previous fit would have stored it; "
+    "MaternKernel cannot be constructed in this environment (needs numba_scipy) and is outside the enumeration; the "
+    "positive-only solver and the second-fit histories are not repeated for these schemes",
 ]
 BOUNDS = {
     "quick": "plain: all 3187 masks with <= 9 cells (3x3, 2x4, 4x2, 1x9 ... 1x1) x 2 value menus x 2 sky levels x "
@@ -74,10 +98,14 @@ BOUNDS = {
              "coefficient lists on every 8th interior mask; second-fit history in every case (see rule); own-mask family "
              "(<= 4 masks per fit mask) on all 3187 plain masks x 2 menus and one member per inversion case; other units: "
              "every 8th interior mask x 6 lists x one (rotating) factor of {1e-40, 1e-20, 1e-6, 1e6, 1e20, 1e40}; 324-"
-             "parameter mapper: 3 interior masks (9, 5 and 2 pixels) x 3 lists x one rotating factor of {1e-3, 1, 1e3}",
+             "parameter mapper: 3 interior masks (9, 5 and 2 pixels) x 3 lists x one rotating factor of {1e-3, 1, 1e3}; "
+             "dense regularization matrices: every interior mask x 4 lists of the 56 (rotating, so every list meets ~36 masks "
+             "of all sizes), directly or through preloads (alternating); cases whose log-determinant is defined to worse than "
+             "1e-2 (degenerate meshes of 2-pixel masks) are not compared",
     "thorough": "plain: all 35943 masks with <= 12 cells; inversion: all 502 interior masks x all 54 lists x both PSF kinds, "
                 "tiny-coefficient lists on every interior mask; other units: every interior mask x 6 lists x all 6 factors; "
-                "324-parameter mapper: every 8th interior mask x 3 lists x all 3 factors",
+                "324-parameter mapper: every 8th interior mask x 3 lists x all 3 factors; dense regularization matrices: "
+                "every interior mask x all 56 lists x {direct, through preloads}",
 }
 
 GARBAGE = [0.0, 7.0, -3.0, 1.0e6]
@@ -85,6 +113,7 @@ SKIES = [0.0, 0.3, -0.3]  # the offset may be added or subtracted: both signs ar
 MENUS = ["mixed", "negative"]
 RTOL = 1e-9
 LD_FLOOR = 1e-9
+LD_DEFINED = 1e-2  # dense regularization matrices: a log-determinant defined to worse than this is not compared
 
 
 def ld_tol(A):
@@ -245,9 +274,121 @@ def unit_menu(ol, menu):
     return list(menu)
 
 
-def make_reg(aa, r, units):
+# Regularization matrices that are symmetric positive definite but NOT diagonally dominant (dense): kernel schemes whose
+# scale length is a few mesh-pixel spacings, and dense SPD matrices from a custom regularization object / through preloads.
+KERNEL_ROT = 14  # quick tier: a mask meets every 14th list of the menu (4 of 56), the offset rotating over the masks
+KERNEL_SCALES = [1, 2, 3, 5]  # scale length in units of the mesh's lattice constant
+KERNEL_SCHEMES = [[name, 1.0, k] for name in ("gauss", "exp") for k in KERNEL_SCALES]
+DENSE_KINDS = ["gram", "rank1", "minij", "equicorr"]
+MAPPER_KINDS = ("rectA", "rectB", "del")
+
+
+def _d(name, c=1.0):
+    return ["dense", name, c]
+
+
+def kernel_lists():
+    """
+    The complete menu: every kernel scheme on every mapper kind and every dense construction on a mapper of either mesh
+    type and on a function list, alone; every scheme next to an unregularized object (before / after / on both sides, kinds
+    rotating); dense blocks next to Constant blocks and to each other.
+    """
+    out = []
+    for k in MAPPER_KINDS:
+        for sch in KERNEL_SCHEMES:
+            out.append([[k], [sch]])
+    for k in ("rectA", "del", "func"):
+        for name in DENSE_KINDS:
+            out.append([[k], [_d(name)]])
+    schemes = KERNEL_SCHEMES + [_d(name, 0.7) for name in DENSE_KINDS]
+    for j, sch in enumerate(schemes):
+        k = MAPPER_KINDS[j % 3]
+        un = ("func", "funcS")[j % 2]
+        out.append([[un, k], [False, sch]] if j % 3 == 0 else ([[k, un], [sch, False]] if j % 3 == 1 else [["func", k, "funcS"], [False, sch, False]]))
+    g = {k: ["gauss", 1.0, k] for k in KERNEL_SCALES}
+    e = {k: ["exp", 1.0, k] for k in KERNEL_SCALES}
+    out += [
+        [["rectA", "rectB"], [True, g[2]]],
+        [["rectB", "rectA"], [g[3], True]],
+        [["del", "rectA"], [e[2], g[2]]],
+        [["rectA", "del"], [g[5], e[5]]],
+        [["rectB", "del"], [_d("gram"), g[1]]],
+        [["func", "rectA", "funcS"], [_d("rank1"), True, False]],
+        [["rectA", "func", "del"], [g[2], False, _d("minij", 1.3)]],
+        [["del", "rectB", "func"], [g[3], _d("equicorr"), _d("gram", 0.5)]],
+    ]
+    return out
+
+
+def dense_spd(name, n, coefficient, seed):
+    """
+    A dense symmetric positive definite n x n matrix that is not diagonally dominant (n >= 2), written from a formula with
+    a small seed-dependent jitter; `coefficient` multiplies it. Condition numbers stay below 1e4.
+    """
+    i = np.arange(n, dtype=float)
+    jit = 1.0 + 0.05 * dom.rng(seed, "c08dense", name, n).uniform(-1, 1, size=n)
+    if name == "gram":  # A A^T / m + ridge with an n x (n + 2) labelled matrix A
+        j = np.arange(n + 2, dtype=float)
+        A = ((3.0 * i[:, None] + 5.0 * j[None, :]) % 7.0 - 3.0) / 3.0 * jit[:, None]
+        H = A @ A.T / (n + 2) + 0.05 * np.eye(n)
+    elif name == "rank1":  # ridge + v v^T with alternating signs and unequal magnitudes: the largest entry of a column is off the diagonal
+        vv = np.where(i % 2 == 0, 1.0, -1.0) * (0.5 + (i * 3.0) % 5.0) * jit
+        H = 0.2 * np.eye(n) + np.outer(vv, vv) / 4.0
+    elif name == "minij":  # covariance of a random walk, inverse tridiagonal
+        H = 0.5 * (np.minimum(i[:, None], i[None, :]) + 1.0) * jit[0]
+    elif name == "equicorr":  # equal correlation 0.9 between all parameters, unequal variances
+        sd = 0.5 + (i * 2.0) % 3.0 / 2.0 * jit
+        H = (0.1 * np.eye(n) + 0.9 * np.ones((n, n))) * sd[:, None] * sd[None, :]
+    else:
+        raise ValueError(name)
+    H = coefficient * 0.5 * (H + H.T)
+    w = np.linalg.eigvalsh(H)
+    if not (w.min() > 0 and w.max() / w.min() < 1e5):
+        raise RuntimeError("harness: dense regularization matrix %s n=%d is not safely positive definite" % (name, n))
+    return H
+
+
+_DENSE_REG = None
+
+
+def dense_reg_cls():
+    """A user-defined regularization scheme (public base class) whose matrix is a dense SPD matrix from dense_spd."""
+    global _DENSE_REG
+    if _DENSE_REG is None:
+        from autoarray.inversion.regularization.abstract import AbstractRegularization
+
+        class VerifDenseRegularization(AbstractRegularization):
+            def __init__(self, name, coefficient, seed):
+                self.name, self.coefficient, self.seed = name, coefficient, seed
+                super().__init__()
+
+            def regularization_weights_from(self, linear_obj):
+                return self.coefficient * np.ones(linear_obj.params)
+
+            def regularization_matrix_from(self, linear_obj):
+                return dense_spd(self.name, linear_obj.params, self.coefficient, self.seed)
+
+        _DENSE_REG = VerifDenseRegularization
+    return _DENSE_REG
+
+
+def lattice_constant(points):
+    """Mean pairwise distance / (0.52 sqrt n): the spacing of a square lattice of n points with that mean distance."""
+    g = np.asarray(points, dtype=float).reshape(-1, 2)
+    n = len(g)
+    d = np.sqrt(((g[:, None, :] - g[None, :, :]) ** 2).sum(-1))
+    return float(d.sum() / (n * (n - 1)) / (0.52 * np.sqrt(n)))
+
+
+def make_reg(aa, r, units, spacing=None, seed=0):
     if not isinstance(r, (list, tuple)):
         return None
+    if r[0] == "gauss":
+        return aa.reg.GaussianKernel(coefficient=r[1], scale=r[2] * spacing)
+    if r[0] == "exp":
+        return aa.reg.ExponentialKernel(coefficient=r[1], scale=r[2] * spacing)
+    if r[0] == "dense":
+        return dense_reg_cls()(r[1], r[2], seed)
     if r[0] == "zeroth":
         return aa.reg.Zeroth(coefficient=r[1] / units)
     if r[0] == "constant-zeroth":
@@ -293,6 +434,16 @@ def cases(tier, seed):
                 if tier == "quick" and j != (i + k) % len(menu):
                     continue
                 yield ["invu", list(frame), list(ks), bits, fix_inv.PSF_KINDS[(k + i) % 2], 2, ol, un, (k + i) % 2 == 1, seed]
+    # dense (not diagonally dominant) regularization matrices: kernel schemes, custom dense SPD objects, preloaded matrices
+    klists = kernel_lists()
+    stride = next(q for q in (11, 13, 17, 19) if np.gcd(q, len(klists)) == 1)
+    for i, bits in enumerate(fam):
+        for k, ol in enumerate(klists):
+            off = (k - stride * i) % len(klists)
+            if tier == "quick" and off % KERNEL_ROT != 0:
+                continue
+            for pre in ([(off // KERNEL_ROT + i) % 2 == 1] if tier == "quick" else [False, True]):
+                yield ["invk", list(frame), list(ks), bits, fix_inv.PSF_KINDS[(k + i) % 2], 1 + (k + i // 2) % 2, ol, bool(pre), (k + i) % 2 == 0, seed]
     for i, bits in enumerate(fam):
         for k, ol in enumerate(lists):
             if tier == "quick":
@@ -831,6 +982,9 @@ def run_case(case):
     elif case[0] == "invu":
         # [.., object list, units, extra, seed]: the same dataset in other units, never the positive-only solver
         run_inv(aa, v, ["inv"] + list(case[1:7]) + [False] + list(case[8:]), units=float(case[7]), scaled=True)
+    elif case[0] == "invk":
+        # [.., object list, through preloads?, extra, seed]: dense regularization matrices, never the positive-only solver
+        run_inv(aa, v, ["inv"] + list(case[1:7]) + [False] + list(case[8:]), dense=True, preload=bool(case[7]))
     else:
         run_inv(aa, v, case)
     return v.result()
@@ -880,8 +1034,28 @@ def logdet_equilibrated(A):
     return float(sg), float(ld + np.sum(logs)), ld_tol(As) + 8.0 * np.finfo(float).eps * float(np.sum(np.abs(logs)))
 
 
-def run_inv(aa, v, case, units=1.0, scaled=False):
-    """scaled: the dataset is expressed in `units` (see UNITS); every tolerance is then relative to the term's magnitude."""
+def triangle_spread(A):
+    """
+    log det of a matrix that is symmetric only to rounding is defined up to the choice of triangle (a Cholesky factor reads
+    one of them, an LU both): the spread of log det over {A, lower triangle mirrored, upper triangle mirrored}. 0 if symmetric.
+    """
+    if A.size == 0 or not (A - A.T).any():
+        return 0.0
+    lo = np.tril(A) + np.tril(A, -1).T
+    up = np.triu(A) + np.triu(A, 1).T
+    with np.errstate(all="ignore"):
+        lds = [logdet_equilibrated(X) for X in (A, lo, up)]
+    if any(not (sg > 0) for sg, _, _ in lds):
+        return np.inf
+    return float(max(ld for _, ld, _ in lds) - min(ld for _, ld, _ in lds))
+
+
+def run_inv(aa, v, case, units=1.0, scaled=False, dense=False, preload=False):
+    """
+    scaled: the dataset is expressed in `units` (see UNITS); every tolerance is then relative to the term's magnitude.
+    dense: the list uses kernel / dense SPD schemes (see kernel_lists); preload: the regularization matrix those schemes give
+    is handed to the inversion through preloads.regularization_matrix and the objects carry a Constant scheme instead.
+    """
     _, frame, ks, bits, psf_kind, sub, (kinds, regs), positive, extra, seed = case
     fx = fix_inv.make_dataset(frame, ks, bits, psf_kind=psf_kind, seed=seed, sub=sub, units=units)
     m = fx["mask_bool"]
@@ -893,16 +1067,32 @@ def run_inv(aa, v, case, units=1.0, scaled=False):
     regtag = "".join(("R" if isinstance(r, bool) else ("t" if isinstance(r, float) else r[0][0].upper() + r[0][-1])) if r else "u" for r in regs)
     if scaled:
         regtag += "/units=%g" % units
+    if dense:
+        regtag = ",".join(("constant" if isinstance(r, bool) else "%s-%s%s" % (r[0], r[1], "" if r[0] == "dense" else "-%gsp" % r[2])) if r else "none"
+                          for r in regs) + ("/through-preloads" if preload else "")
     # the diagonal added for unregularized parameters is a curvature (1 / units^2): scaled with the dataset
     diag = 1e-3 / units ** 2 if scaled else 1e-3
     floor = 0.0 if scaled else 1.0
     npix = bin(bits).count("1")
 
-    def make_objs(f):
-        return [fix_inv.make_obj(f, k, reg=reg_flag(r)[0], seed=seed, coefficient=reg_flag(r)[1], regularization=make_reg(aa, r, units))
-                for k, r in zip(kinds, regs)]
+    def make_objs(f, placeholder=False):
+        out = []
+        for k, r in zip(kinds, regs):
+            spacing = None
+            if isinstance(r, list) and r[0] in ("gauss", "exp"):
+                # the scale length is given in units of the mesh's lattice constant (read from a throw-away object)
+                spacing = lattice_constant(np.array(fix_inv.make_obj(f, k, reg=True, seed=seed).source_plane_mesh_grid))
+            regul = None if (placeholder and r) else make_reg(aa, r, units, spacing=spacing, seed=seed)
+            out.append(fix_inv.make_obj(f, k, reg=reg_flag(r)[0], seed=seed, coefficient=reg_flag(r)[1], regularization=regul))
+        return out
 
     objs0 = make_objs(fx)
+    H_pre = None
+    if preload:
+        # the matrix the schemes give for these objects (zero blocks for unregularized ones), as computed in an earlier fit
+        import scipy.linalg
+
+        H_pre = scipy.linalg.block_diag(*[np.array(o.regularization_matrix, dtype=float) for o in objs0])
     B, widths = fix_inv.reference_B(fx, objs0)
     _, F_ref = fix_inv.normal_equations(B, fx["data"], fx["noise"])
     reg_idx, unreg_idx = [], []
@@ -915,10 +1105,13 @@ def run_inv(aa, v, case, units=1.0, scaled=False):
     outcomes = []
 
     for wt in (False, True):
-        objs = make_objs(fx)  # fresh graph per inversion
+        objs = make_objs(fx, placeholder=preload)  # fresh graph per inversion
         fxi = fix_inv.make_dataset(frame, ks, bits, psf_kind=psf_kind, seed=seed, sub=sub, units=units)
         st = fix_inv.settings(aa, wt, positive=positive, diag=diag)
-        inv = aa.Inversion(dataset=fxi["ds"], linear_obj_list=objs, settings=st)
+        if preload:
+            inv = aa.Inversion(dataset=fxi["ds"], linear_obj_list=objs, settings=st, preloads=aa.Preloads(regularization_matrix=H_pre.copy()))
+        else:
+            inv = aa.Inversion(dataset=fxi["ds"], linear_obj_list=objs, settings=st)
         fam = "wtilde" if isinstance(inv, aa.InversionImagingWTilde) else "mapping"
         tag = "%s/%s/%s%s" % (fam, "+".join(kinds), regtag, "/positive" if positive else "")
         try:
@@ -940,7 +1133,7 @@ def run_inv(aa, v, case, units=1.0, scaled=False):
             sr = s[reg_idx]
             reg_term = float(sr @ Hr @ sr)
             FHr = (F_ref + H)[ix]
-            if scaled:
+            if scaled or dense:
                 sg1, ld_fh, tol_fh = logdet_equilibrated(FHr)
                 sg2, ld_h, tol_h = logdet_equilibrated(Hr)
             else:
@@ -950,7 +1143,15 @@ def run_inv(aa, v, case, units=1.0, scaled=False):
                 outcomes.append(fam + ":not-positive-definite")
                 continue
             ld_fh, ld_h = float(ld_fh), float(ld_h)
-            if not scaled:
+            if dense:
+                tol_fh += triangle_spread(FHr)
+                tol_h += triangle_spread(Hr)
+                if not max(tol_fh, tol_h) <= LD_DEFINED:
+                    # e.g. all unmasked pixels in one row: the overlaid mesh has (nearly) coincident rows and the kernel
+                    # covariance is singular to rounding - its log-determinant is not defined, nothing to compare
+                    outcomes.append(fam + ":log-det-undefined-to-%g" % LD_DEFINED)
+                    continue
+            elif not scaled:
                 tol_fh, tol_h = ld_tol(FHr), ld_tol(Hr)
             with np.errstate(all="ignore"):
                 sgf, ld_fh_full = np.linalg.slogdet(F_ref + H)
@@ -972,7 +1173,11 @@ def run_inv(aa, v, case, units=1.0, scaled=False):
             continue
         reported = set()
         scale_r = max(1.0, abs(reg_term))
-        if not v.ok(_close(o_reg, reg_term, 1e-9 * scale_r), "regularization_term",
+        tol_reg = 1e-9 * scale_r
+        if dense and reg_idx:
+            # entries of a kernel scheme's H reach 1e7 and cancel in s^T H s: rounding of the products, not of the result
+            tol_reg += 16.0 * len(reg_idx) * np.finfo(float).eps * float(np.abs(sr) @ np.abs(Hr) @ np.abs(sr))
+        if not v.ok(_close(o_reg, reg_term, tol_reg), "regularization_term",
                     lambda: "%s observed=%r expected s_r^T H_rr s_r=%r (full s^T H s=%r)" % (tag, o_reg, reg_term, float(s @ H @ s))):
             reported.add("regularization_term")
 
@@ -981,7 +1186,9 @@ def run_inv(aa, v, case, units=1.0, scaled=False):
                 v.ok(True, name)
                 return
             reported.add(name)
-            unreduced = partial and ((not np.isfinite(o) and not scaled) or (full is not None and np.isfinite(full) and _close(o, float(full), tol)))
+            # (an unreduced H has zero rows: -inf from a determinant; a NaN next to dense blocks is a factorisation's own failure)
+            nonfinite = np.isinf(o) if dense else not np.isfinite(o)
+            unreduced = partial and ((nonfinite and not scaled) or (full is not None and np.isfinite(full) and _close(o, float(full), tol)))
             cls = "log_evidence:determinant-not-reduced" if unreduced else name
             v.fail(cls, "%s %s observed=%r expected(reduced to regularized parameters)=%r unreduced=%r" % (tag, name, o, want, full))
 
@@ -997,7 +1204,7 @@ def run_inv(aa, v, case, units=1.0, scaled=False):
                  "curvature_reg_matrix_reduced", lambda: "%s shape %s vs %s maxdiff=%s" % (tag, FHr_o.shape, FHr.shape, dom.maxdiff(FHr_o, FHr)))
 
         inv_ref = {"reg_term": reg_term, "ld_fh": ld_fh, "ld_h": ld_h, "obs": {"reg_term": o_reg, "ld_fh": o_fh, "ld_h": o_h},
-                   "atol": 0.5 * (tol_fh + tol_h) + 1e-9 * scale_r}
+                   "atol": 0.5 * (tol_fh + tol_h) + tol_reg}
 
         # ---- the fit: model image = mapped reconstruction (+ a fixed extra component), on the native frame
         model_nat = np.zeros(m.shape)
@@ -1020,9 +1227,17 @@ def run_inv(aa, v, case, units=1.0, scaled=False):
             own["sky"] = sky_u
             run_fits(v, aa, mask, m, d_nat, model_nat, s_nat, tag, inversion=inv, inv_ref=inv_ref, reported=reported,
                      own=own, skies=[sky_u], gscale=units, floor=0.0)
+        elif dense:
+            # one (rotating) sky level, no second-fit history, the own-mask member in one of the two formalisms
+            sky_k = SKIES[(npix + len(kinds) + int(wt)) % 3]
+            own["sky"] = sky_k
+            run_fits(v, aa, mask, m, d_nat, model_nat, s_nat, tag, inversion=inv, inv_ref=inv_ref, reported=reported,
+                     own=own if (npix + len(kinds) + int(wt)) % 2 == 0 else None, skies=[sky_k])
         else:
             run_fits(v, aa, mask, m, d_nat, model_nat, s_nat, tag, inversion=inv, inv_ref=inv_ref, reported=reported, hist=hist,
                      own=own if (npix + len(kinds) + int(wt)) % 2 == 0 else None)
         outcomes.append("%s:%s" % (fam, "reg" if all(regs) else ("partial" if partial else "unreg")))
     v.outcome = "inv:L%d:%s:%s%s%s%s" % (len(kinds), "pos" if positive else "pn", "|".join(outcomes), ":tiny-coefficient" if tiny else "",
                                        ":other-units" if scaled else "", ":few-hundred-parameters" if "rectL" in kinds else "")
+    if dense:
+        v.outcome += ":dense-regularization%s" % ("-through-preloads" if preload else "")
